@@ -208,6 +208,10 @@ pub struct Cfg {
     /// A second animated entity: plain `Animator<Target>` (no selector, no chain) playing
     /// `tls[index]`, spawned before or after the main entity.
     pub extra_entity: Option<(usize, bool)>,
+    /// A mirror entity: configured exactly like the main entity and given exactly the same
+    /// operations; by symmetry it must be indistinguishable from the main entity in every frame.
+    /// `Some(true)` = spawned before the main entity.
+    pub mirror: Option<bool>,
     pub order: Order,
     pub initial: Vals,
     pub grid: bool,
@@ -295,6 +299,13 @@ pub fn scn_to_json(s: &BScn) -> Json {
         .set("initial_start_with", c.initial_start_with)
         .set("start_disabled", c.start_disabled)
         .set("second_animator", c.second.as_ref().map(other_to_json).unwrap_or(Json::Null))
+        .set(
+            "mirror_entity_spawned_before_main",
+            match c.mirror {
+                Some(b) => Json::Bool(b),
+                None => Json::Null,
+            },
+        )
         .set(
             "extra_plain_entity",
             match c.extra_entity {
@@ -390,6 +401,10 @@ pub fn scn_from_json(j: &Json) -> Result<BScn, String> {
             Json::Null => None,
             v => Some(other_from_json(v)?),
         },
+        mirror: match c.get("mirror_entity_spawned_before_main") {
+            None | Some(Json::Null) => None,
+            Some(v) => Some(v.as_bool()?),
+        },
         extra_entity: match c.get("extra_plain_entity") {
             None | Some(Json::Null) => None,
             Some(v) => Some((
@@ -446,6 +461,7 @@ pub struct SimWorld {
     pub app: App,
     pub entity: Entity,
     pub extra: Option<Entity>,
+    pub mirror: Option<Entity>,
     pub bystander: Entity,
     pub reader: bevy::ecs::event::ManualEventReader<AnimationStateChanged>,
     pub now: Instant,
@@ -531,49 +547,60 @@ pub fn build_world(cfg: &Cfg) -> SimWorld {
     if matches!(cfg.extra_entity, Some((_, true))) {
         extra = spawn_extra(&mut app);
     }
-    let mut animator: Animator<Target> = if cfg.selector {
-        Animator::new()
-    } else {
-        match cfg.initial_tl {
-            Some(i) => {
-                let mut tl = build_target_merged(&cfg.tls[i]);
-                if cfg.initial_start_with {
-                    tl.start_with(&component);
+    let spawn_main = |app: &mut App| -> Entity {
+        let component = component.clone();
+        let mut animator: Animator<Target> = if cfg.selector {
+            Animator::new()
+        } else {
+            match cfg.initial_tl {
+                Some(i) => {
+                    let mut tl = build_target_merged(&cfg.tls[i]);
+                    if cfg.initial_start_with {
+                        tl.start_with(&component);
+                    }
+                    Animator::with_timeline(tl)
                 }
-                Animator::with_timeline(tl)
+                None => Animator::new(),
             }
-            None => Animator::new(),
+        };
+        if cfg.start_disabled {
+            animator = animator.as_disabled();
         }
+        let mut e = app.world.spawn((component, animator));
+        if cfg.selector {
+            let mut b = AnimationSelectorBuilder::<Key, Target>::new().initial_key(cfg.initial_key);
+            for (k, tl) in cfg.keys.iter().enumerate() {
+                if let Some(i) = tl {
+                    // alternate between plain and merged timelines in the selector map
+                    if cfg.tls[*i].parts.len() == 1 && k % 2 == 0 {
+                        b = b.add(k as Key, build_target_tl(&cfg.tls[*i].parts[0]));
+                    } else {
+                        b = b.add(k as Key, build_target_merged(&cfg.tls[*i]));
+                    }
+                }
+            }
+            e.insert(b.build());
+            if let Some(pairs) = &cfg.chain {
+                let mut cb = AnimationChainBuilder::<Key>::new();
+                for (from, to) in pairs {
+                    cb = cb.add(*from, *to);
+                }
+                e.insert(cb.build());
+            }
+        }
+        if let Some(o) = &cfg.second {
+            e.insert((Other::default(), Animator::<Other>::with_timeline(build_other_tl(o))));
+        }
+        e.id()
     };
-    if cfg.start_disabled {
-        animator = animator.as_disabled();
+    let mut mirror = None;
+    if cfg.mirror == Some(true) {
+        mirror = Some(spawn_main(&mut app));
     }
-    let mut e = app.world.spawn((component, animator));
-    if cfg.selector {
-        let mut b = AnimationSelectorBuilder::<Key, Target>::new().initial_key(cfg.initial_key);
-        for (k, tl) in cfg.keys.iter().enumerate() {
-            if let Some(i) = tl {
-                // alternate between plain and merged timelines in the selector map
-                if cfg.tls[*i].parts.len() == 1 && k % 2 == 0 {
-                    b = b.add(k as Key, build_target_tl(&cfg.tls[*i].parts[0]));
-                } else {
-                    b = b.add(k as Key, build_target_merged(&cfg.tls[*i]));
-                }
-            }
-        }
-        e.insert(b.build());
-        if let Some(pairs) = &cfg.chain {
-            let mut cb = AnimationChainBuilder::<Key>::new();
-            for (from, to) in pairs {
-                cb = cb.add(*from, *to);
-            }
-            e.insert(cb.build());
-        }
+    let entity = spawn_main(&mut app);
+    if cfg.mirror == Some(false) {
+        mirror = Some(spawn_main(&mut app));
     }
-    if let Some(o) = &cfg.second {
-        e.insert((Other::default(), Animator::<Other>::with_timeline(build_other_tl(o))));
-    }
-    let entity = e.id();
     if matches!(cfg.extra_entity, Some((_, false))) {
         extra = spawn_extra(&mut app);
     }
@@ -589,6 +616,7 @@ pub fn build_world(cfg: &Cfg) -> SimWorld {
         app,
         entity,
         extra,
+        mirror,
         bystander,
         reader,
         now: base,
